@@ -784,7 +784,12 @@ class Extractor:
             attrs += c.attrs
         if external:
             attrs.append('#[verifier::external_body]')
-            self.report['external_body'].append({'fn': path, 'reason': pol.external[path], 'file': relfile, 'line': it.line})
+            # the body of an assumed function is not seen by Verus: pin its text, a changed body makes the assumption stale
+            btxt = re.sub(r'\s+', ' ', src[it.start:it.end]).strip()
+            bh = hashlib.sha256(btxt.encode()).hexdigest()
+            exp = (self.cs.policy.external_sha or {}).get(path)
+            self.report['external_body'].append({'fn': path, 'reason': pol.external[path], 'file': relfile, 'line': it.line,
+                                                 'sha256': bh, 'expected': exp, 'unchanged': (exp == bh)})
         else:
             attrs.append('#[verifier::loop_isolation(false)]')
         # loops, proof injections (only meaningful when the body is verified)
